@@ -14,6 +14,12 @@
 // and argument class from every newly reached state (the prefix is replayed on a fresh deque);
 // (a) seeded random walks with biased operation mixes.
 //
+// (c) arithmetic bands: Grow/Shrink arguments where a size computation (Len()+n)*k/m or (cap+n)*k/m
+// would wrap around 2^64, on a few non-empty states; such a call may panic or return, the contents
+// must be the model's either way. (d) enormous deques of zero-size elements (Grow(MaxInt) and the
+// like, indices near MaxInt; only O(Len) work), including the named regression scenario for the
+// front+i overflow fixed in /repo commit df3d494.
+//
 // Element types: the deque is generic, so the static element type is an input too. Besides *int,
 // int and string, the cover and a reduced number of walks run over uint8 (1 byte), struct{} (0
 // bytes; single-valued, so only Len/panics/iteration counts/hook state are informative and the
@@ -24,6 +30,7 @@ package main
 import (
 	"fmt"
 	"math"
+	"math/bits"
 	"runtime"
 	"runtime/debug"
 	"strings"
@@ -47,10 +54,14 @@ func main() {
 		r.Assume("struct{} elements are indistinguishable: for that element type only lengths, panics, iteration counts and the raw state are compared")
 		r.Assume("a Deque value is not copied after first use (documented precondition); all calls on one deque come from one goroutine")
 		r.Assume("Grow is only called with n >= 0 (negative n is not specified by the statement)")
+		r.Assume("a Grow or Shrink that would have to allocate >= 2^56 elements may panic or return (it returns for zero-size elements); in both cases the contents are compared with the model afterwards")
 		r.Assume("which panic value a refused call raises is not judged: any panic counts as 'panicked'")
 		sh := newShared(r)
+		regress(r, sh)
 		cover(r, sh)
+		band(r, sh)
 		walks(r, sh)
+		hugeWalks(r, sh)
 		sh.finish()
 	})
 }
@@ -220,6 +231,8 @@ func (o op) class(n, c int) string {
 		return opNames[o.k] + ":" + a
 	case opGrow:
 		switch {
+		case astronomic(o.arg):
+			return "Grow:astronomic"
 		case o.arg == 0:
 			return "Grow:0"
 		case o.arg <= free:
@@ -231,6 +244,8 @@ func (o op) class(n, c int) string {
 		switch {
 		case o.arg < 0:
 			return "Shrink:neg"
+		case astronomic(o.arg):
+			return "Shrink:astronomic"
 		case o.arg >= free:
 			return "Shrink:noop"
 		case o.arg == 0:
@@ -241,6 +256,13 @@ func (o op) class(n, c int) string {
 	}
 	return opNames[o.k]
 }
+
+// astronomic arguments: a buffer of that many elements cannot be allocated for any element type of
+// non-zero size (make panics with "len out of range" before touching anything: the limit is 2^48
+// bytes), but can for a zero-size element type. When such a call has to reallocate, either outcome
+// (panicked | returned) is accepted; the contents must be the model's afterwards in both cases.
+// Nothing between 4096 and 2^56 is ever passed to Grow, so no real allocation can exhaust memory.
+func astronomic(n int) bool { return n >= 1<<56 }
 
 // ---------------------------------------------------------------------------------------------
 // Abstract state (read through the hook)
@@ -257,7 +279,7 @@ func (k stKey) String() string {
 	return fmt.Sprintf("cap=%d,front=%d,len=%d", k.cap, k.front, k.n)
 }
 
-func (k stKey) wrapped() bool { return k.n > 0 && k.front+k.n > k.cap }
+func (k stKey) wrapped() bool { return k.n > 0 && k.n > k.cap-k.front }
 func (k stKey) full() bool    { return k.cap > 0 && k.n == k.cap }
 func (k stKey) empty() bool   { return k.n == 0 }
 
@@ -303,8 +325,10 @@ func capBucket(c int) string {
 		return "cap 9..16"
 	case c <= 64:
 		return "cap 17..64"
-	default:
+	case c < 1<<56:
 		return "cap > 64"
+	default:
+		return "cap astronomic (zero-size elements)"
 	}
 }
 
@@ -617,19 +641,34 @@ func (x *runner[T]) step(o op) {
 		}
 		x.model[o.arg] = v
 	case opGrow:
-		p := try(false, func() { d.Grow(o.arg) })
+		// Either outcome is accepted only where an astronomic buffer would have to be allocated.
+		lenient := astronomic(o.arg) && o.arg > pre.cap-n
+		p := try(lenient, func() { d.Grow(o.arg) })
 		x.evals++
-		if !x.noPanic(p, "grow", o.String()) {
+		if lenient {
+			if p != nil {
+				x.count("astronomic arguments (either outcome accepted, contents compared)", "Grow panicked")
+			} else {
+				x.count("astronomic arguments (either outcome accepted, contents compared)", "Grow returned")
+			}
+		} else if !x.noPanic(p, "grow", o.String()) {
 			return
 		}
 	case opShrink:
-		p := try(o.arg < 0, func() { d.Shrink(o.arg) })
+		lenient := astronomic(o.arg) && o.arg < pre.cap-n
+		p := try(o.arg < 0 || lenient, func() { d.Shrink(o.arg) })
 		if o.arg < 0 {
 			x.expectPanic(p, "shrink-negative", "Shrink:neg", o.String())
 			break
 		}
 		x.evals++
-		if !x.noPanic(p, "shrink", o.String()) {
+		if lenient {
+			if p != nil {
+				x.count("astronomic arguments (either outcome accepted, contents compared)", "Shrink panicked")
+			} else {
+				x.count("astronomic arguments (either outcome accepted, contents compared)", "Shrink returned")
+			}
+		} else if !x.noPanic(p, "shrink", o.String()) {
 			return
 		}
 	case opIterate:
@@ -642,7 +681,9 @@ func (x *runner[T]) step(o op) {
 	post, postGen := x.hook()
 	if !x.quiet {
 		x.seen[post] = struct{}{}
-		x.max("deque", "capacity", post.cap)
+		if !astronomic(post.cap) {
+			x.max("deque", "capacity", post.cap)
+		}
 		x.max("deque", "items", len(x.model))
 		realloc := post.cap != pre.cap || post.alloc != pre.alloc
 		if (o.k == opGrow || o.k == opShrink) && postGen != preGen {
@@ -652,7 +693,7 @@ func (x *runner[T]) step(o op) {
 			x.count("reallocations, by operation and layout before", opNames[o.k]+":"+pre.layout())
 		}
 		// Recorded, never judged (the statement only says that Grow/Shrink keep the contents).
-		if o.k == opShrink && o.arg >= 0 {
+		if o.k == opShrink && o.arg >= 0 && !astronomic(o.arg) {
 			if post.cap-post.n > o.arg && post.cap-post.n > 0 {
 				x.count("not judged", "Shrink(n) left more than n spare slots")
 			}
@@ -660,7 +701,7 @@ func (x *runner[T]) step(o op) {
 				x.count("not judged", "Shrink(n) reallocated although spare <= n")
 			}
 		}
-		if o.k == opGrow && post.cap-post.n < o.arg {
+		if o.k == opGrow && !astronomic(o.arg) && post.cap-post.n < o.arg {
 			x.count("not judged", "Grow(n) left fewer than n spare slots")
 		}
 	}
@@ -1281,5 +1322,266 @@ func walkT[T comparable](c *vkit.Case, sh *shared, ek elemKind[T]) {
 	r.Count("walks", ek.name, 1)
 	if r.WantSample() && c.Index < 64 && len(x.log) >= 40 && len(x.log) <= 160 {
 		r.Sample(map[string]any{"kind": "random walk", "elem": ek.name, "phases": phases, "ops_from_zero_value": x.log})
+	}
+}
+
+// ---------------------------------------------------------------------------------------------
+// (c) Arithmetic bands: Grow/Shrink arguments at which a size computation of the form
+// (Len()+n)*k/m or (cap+n)*k/m would wrap around 2^64 to a small number.
+
+// bandArgs returns, for a deque with `base` items (or slots), the arguments n >= 0 that put
+// base+n within [-4, +48] of ceil(k*2^64/m) for m in 2..9, 1 <= k < m, plus 2/3 of MaxInt +- base.
+func bandArgs(base int) []int {
+	seen := make(map[int]bool)
+	var out []int
+	add := func(v uint64) {
+		if v > math.MaxInt {
+			return
+		}
+		n := int(v)
+		if !astronomic(n) || seen[n] {
+			return
+		}
+		seen[n] = true
+		out = append(out, n)
+	}
+	for m := uint64(2); m <= 9; m++ {
+		for k := uint64(1); k < m; k++ {
+			q, rem := bits.Div64(k, 0, m) // floor(k*2^64/m)
+			if rem != 0 {
+				q++
+			}
+			if q > math.MaxInt+uint64(base)+64 {
+				continue
+			}
+			for delta := -4; delta <= 48; delta++ {
+				add(q - uint64(base) + uint64(int64(delta))) // wraps correctly for negative delta
+			}
+		}
+	}
+	for delta := -2; delta <= 2; delta++ {
+		add(uint64(math.MaxInt/3*2 + base + delta))
+		add(uint64(math.MaxInt/3*2 - base + delta))
+	}
+	return out
+}
+
+type bandState struct {
+	name     string
+	prefix   []op
+	unitOnly bool // needs an astronomic capacity
+}
+
+func rep(o op, n int) []op {
+	out := make([]op, n)
+	for i := range out {
+		out[i] = o
+	}
+	return out
+}
+
+func cat(parts ...[]op) []op {
+	var out []op
+	for _, p := range parts {
+		out = append(out, p...)
+	}
+	return out
+}
+
+var bandStates = []bandState{
+	{"40 items, contiguous, cap 64", rep(op{k: opPushBack}, 40), false},
+	{"21 items, wrapped, cap 32", cat(rep(op{k: opPushBack}, 12), rep(op{k: opPushFront}, 9)), false},
+	{"1 item", []op{{k: opPushFront}}, false},
+	{"5 items, full and wrapped, cap 5", cat([]op{{opGrow, 5}}, rep(op{k: opPushFront}, 2), rep(op{k: opPushBack}, 3)), false},
+	{"3 items, exactly fitting after Shrink(0)", cat(rep(op{k: opPushBack}, 3), []op{{opShrink, 0}}), false},
+	{"cap MaxInt, 3 items wrapped", cat([]op{{opGrow, math.MaxInt}}, []op{{k: opPushFront}, {k: opPushBack}, {k: opPushBack}}), true},
+	{"cap MaxInt/2+7, 40 items", cat([]op{{opGrow, math.MaxInt/2 + 7}}, rep(op{k: opPushBack}, 40)), true},
+	{"cap MaxInt-5, 17 items wrapped", cat([]op{{opGrow, math.MaxInt - 5}}, rep(op{k: opPushFront}, 9), rep(op{k: opPushBack}, 8)), true},
+}
+
+func band(r *vkit.Report, sh *shared) {
+	const nTypes = 3
+	r.Cases("band", nTypes*len(bandStates), runtime.GOMAXPROCS(0), func(c *vkit.Case) {
+		bs := bandStates[c.Index/nTypes]
+		switch c.Index % nTypes {
+		case 0:
+			bandT(c, sh, unitKind, bs)
+		case 1:
+			if !bs.unitOnly {
+				bandT(c, sh, intKind, bs)
+			}
+		default:
+			if !bs.unitOnly {
+				bandT(c, sh, byteKind, bs)
+			}
+		}
+	})
+	if r.Replaying() {
+		return
+	}
+	tbl := "astronomic arguments (either outcome accepted, contents compared)"
+	r.Floor("astronomic Grow calls that panicked (allocation impossible)", r.Table(tbl, "Grow panicked"), 1000)
+	r.Floor("astronomic Grow calls that returned (zero-size elements)", r.Table(tbl, "Grow returned"), 1000)
+	r.Floor("astronomic Shrink calls that had to reallocate (zero-size elements, astronomic capacity)", r.Table(tbl, "Shrink returned")+r.Table(tbl, "Shrink panicked"), 100)
+	r.Floor("arithmetic-band states completed", r.Table("arithmetic band: (element type, state) pairs completed", "all"), int64(len(bandStates)+2*5))
+}
+
+func bandT[T comparable](c *vkit.Case, sh *shared, ek elemKind[T], bs bandState) {
+	var x *runner[T]
+	var key stKey
+	build := func() bool {
+		if x != nil {
+			x.flush()
+		}
+		x = newRunner(c, sh, ek)
+		x.quiet = true
+		for _, o := range bs.prefix {
+			x.step(o)
+		}
+		x.quiet = false
+		x.thor = true
+		if x.failed {
+			x.flush()
+			return false
+		}
+		key = x.state()
+		return true
+	}
+	if !build() {
+		return
+	}
+	if bs.unitOnly && !astronomic(key.cap) {
+		// Grow(astronomic) on the zero value was refused: nothing to examine from this state.
+		c.R.Count("arithmetic band: states skipped because the astronomic Grow did not succeed", bs.name, 1)
+		x.flush()
+		return
+	}
+	n := len(x.model)
+	args := bandArgs(n)
+	if key.cap != n {
+		args = append(args, bandArgs(key.cap)...)
+	}
+	if astronomic(key.cap) {
+		// arguments relative to the spare capacity: Shrink(n) reallocates iff n < spare
+		free := key.cap - n
+		for _, a := range bandArgs(0) {
+			if a < free {
+				args = append(args, a)
+			}
+		}
+		for d := -3; d <= 3; d++ {
+			if v := free + d; v >= 0 && v >= free-3 {
+				args = append(args, v)
+			}
+		}
+	}
+	for _, k := range []opKind{opGrow, opShrink} {
+		for _, a := range args {
+			x.step(op{k, a})
+			if x.failed {
+				x.flush()
+				return
+			}
+			if x.state() != key {
+				// the call succeeded and reallocated (zero-size elements): start again from the state
+				if !build() {
+					return
+				}
+				if x.state() != key {
+					c.R.Inconclusive(fmt.Sprintf("arithmetic band: rebuilding %q reached %v instead of %v", bs.name, x.state(), key))
+					x.flush()
+					return
+				}
+			}
+		}
+	}
+	x.flush()
+	c.R.Count("arithmetic band: (element type, state) pairs completed", "all", 1)
+	c.R.Count("arithmetic band: arguments per state", ek.name+" / "+bs.name, 2*len(args))
+}
+
+// ---------------------------------------------------------------------------------------------
+// (d) Regression scenario for /repo commit df3d494 (Item/Set computed front+i in int, which
+// overflows on an enormous deque of zero-size elements), and walks on enormous deques.
+
+func regress(r *vkit.Report, sh *shared) {
+	r.Cases("regress-df3d494", 1, 1, func(c *vkit.Case) {
+		x := newRunner(c, sh, unitKind)
+		defer x.flush()
+		x.thor = true // complete read-back (Len, Front, Back, every Item, Iterate) after every call
+		x.step(op{opGrow, math.MaxInt})
+		if !astronomic(x.state().cap) {
+			r.Count("regression df3d494", "Grow(MaxInt) was refused; scenario not applicable", 1)
+			return
+		}
+		for _, o := range []op{{k: opPushFront}, {k: opPushBack}, {k: opPushBack}} {
+			x.step(o)
+		}
+		// front == MaxInt-1, three items: Item(2) is slot 1 and front+2 overflows int
+		for _, o := range []op{{opItem, 2}, {opSet, 2}, {opSet, 1}, {opSet, 0}, {opItem, 1}, {opItem, 0}, {opItem, 3}, {opSet, 3},
+			{k: opFront}, {k: opBack}, {k: opIterate}, {k: opLen}, {k: opPushBack}, {opItem, 3}, {opSet, 3}, {k: opPopFront}, {opItem, 2}, {k: opPopBack}, {k: opPopBack}, {opItem, 0}} {
+			x.step(o)
+		}
+		if !x.failed {
+			r.Count("regression df3d494", "executed on a deque with cap == MaxInt, front == MaxInt-1", 1)
+		}
+	})
+	if !r.Replaying() {
+		r.Floor("regression scenario df3d494 executed", r.Table("regression df3d494", "executed on a deque with cap == MaxInt, front == MaxInt-1")+r.Table("regression df3d494", "Grow(MaxInt) was refused; scenario not applicable"), 1)
+	}
+}
+
+func hugeWalks(r *vkit.Report, sh *shared) {
+	r.Cases("huge", r.Scale(200, 3000), runtime.GOMAXPROCS(0), func(c *vkit.Case) {
+		rnd := c.Rand
+		x := newRunner(c, sh, unitKind)
+		defer x.flush()
+		switch rnd.Intn(5) {
+		case 0:
+			x.step(op{opGrow, math.MaxInt})
+		case 1:
+			x.step(op{opGrow, math.MaxInt - rnd.Intn(40)})
+		case 2:
+			x.step(op{opGrow, math.MaxInt/2 + rnd.Intn(41)})
+		case 3:
+			x.step(op{opGrow, math.MaxInt/2 + 1 + rnd.Intn(5)})
+			x.step(op{opGrow, math.MaxInt/2 - rnd.Intn(4)}) // cap + n lands at or just beyond MaxInt
+		default:
+			m := rnd.Intn(6)
+			for i := 0; i < m; i++ {
+				x.step(op{k: opKind(rnd.Intn(2))})
+			}
+			x.step(op{opGrow, math.MaxInt - rnd.Intn(60)})
+		}
+		if astronomic(x.state().cap) {
+			r.Count("walks on enormous deques", "started with an astronomic capacity", 1)
+		}
+		total := rnd.Range(40, 150)
+		for x.nops < total && !x.failed {
+			m := vkit.Pick(rnd, mixes)
+			plen := rnd.Range(5, 40)
+			for i := 0; i < plen && !x.failed; i++ {
+				st := x.state()
+				n := len(x.model)
+				if rnd.Intn(12) == 0 {
+					free := st.cap - n
+					a := vkit.Pick(rnd, []int{math.MaxInt, math.MaxInt - n, math.MaxInt - st.cap, free, free - 1, free + 1, st.cap, math.MaxInt / 2, math.MaxInt/2 + 1, vkit.Pick(rnd, bandArgs(n))})
+					if a < 0 || (a > 4096 && !astronomic(a)) {
+						a = math.MaxInt
+					}
+					x.step(op{opGrow + opKind(rnd.Intn(2)), a})
+					continue
+				}
+				x.step(randomOp(rnd, m.w, n, st.cap))
+			}
+		}
+		if !x.failed {
+			x.thor = true
+			x.step(op{k: opLen})
+		}
+		r.Count("walks", "struct{} on enormous deques", 1)
+	})
+	if !r.Replaying() {
+		r.Floor("walks on enormous deques that started with an astronomic capacity", r.Table("walks on enormous deques", "started with an astronomic capacity"), 50)
 	}
 }
